@@ -3,7 +3,7 @@ import Toodee.Spec.Cells
 import Toodee.Impl.Sort
 import Toodee.Proofs.SortLemmas
 import Toodee.Proofs.CopyLemmas
-import Toodee.Properties.C04
+import Toodee.Properties.C04Frame
 /-
   C16 — Sorting by a row permutes whole columns into order (and the shared machinery for C17).
 
@@ -55,40 +55,61 @@ theorem C16_apply_col_perm (v : VW) (buf : List α) (h : v.Inv buf.length) (a : 
     a.applyColPerm buf p = .ok (gather buf (v.mapCells (sortColsG p))) := by
   exact applyColPerm_spec v buf h a ha p hp
 
-/-- `sort_by_row` (and `sort_by_row_key`, `sort_row_ord`, which delegate to it with a derived comparator) -/
+theorem sideStable_sane (le : α → α → Bool) : (sideStable le).Sane :=
+  fun keys => .inr ⟨_, rfl, stablePerm_perm le keys⟩
+
+theorem sideGiven_sane_on (p : List Nat) (keys : List α) (hp : p.Perm (List.range keys.length)) :
+    (sideGiven p : SideSort α) keys = .ok p ∧ p.Perm (List.range keys.length) := ⟨rfl, hp⟩
+
+/-- **Every `sort_*_row*` method** (`Acc.sortRowWith`: the one body all six share; `side` = what its side sort does with the keys
+    of the chosen row; `lim` = how many entries a side table may have):
+    * an out-of-range row panics;
+    * a row too long for the side table panics ("capacity overflow") — only reachable for zero-sized elements;
+    * if caller code panics inside the side sort, that panic is the outcome (nothing has been written to the array before the
+      side sort returns: `applyColPerm` is the only writer and runs afterwards);
+    * otherwise whole columns are permuted by the permutation `p` the side sort returned: new column `j` is old column `p[j]`. -/
+theorem C16_sort_row_with (v : VW) (buf : List α) (h : v.Inv buf.length) (a : Acc) (ha : a.Of v buf.length)
+    (indexRow : Nat → Res Win) (hidx : ∀ r, r < v.numRows → indexRow r = .ok (v.rowWin r))
+    (lim : Nat) (side : SideSort α) (row : Nat) :
+    (¬ row < v.numRows → a.sortRowWith indexRow buf lim side row = .error .panic) ∧
+    (row < v.numRows → ¬ v.numCols ≤ lim → a.sortRowWith indexRow buf lim side row = .error .panic) ∧
+    (row < v.numRows → v.numCols ≤ lim → ∀ e, side (readWin buf (v.rowWin row)) = .error e →
+      a.sortRowWith indexRow buf lim side row = .error e) ∧
+    (row < v.numRows → v.numCols ≤ lim → ∀ p, side (readWin buf (v.rowWin row)) = .ok p → p.Perm (List.range v.numCols) →
+      a.sortRowWith indexRow buf lim side row = .ok (gather buf (v.mapCells (sortColsG p)))) := by
+  sorry
+
+/-- the key row of a view has `num_cols` cells -/
+theorem C16_key_row_length (v : VW) (buf : List α) (h : v.Inv buf.length) (row : Nat) (hr : row < v.numRows) :
+    (readWin buf (v.rowWin row)).length = v.numCols := by
+  sorry
+
+/-- `sort_by_row(row, compare)` -/
 theorem C16_sort_by_row (v : VW) (buf : List α) (h : v.Inv buf.length) (a : Acc) (ha : a.Of v buf.length)
     (indexRow : Nat → Res Win) (hidx : ∀ r, r < v.numRows → indexRow r = .ok (v.rowWin r))
-    (le : α → α → Bool) (row : Nat) :
+    (lim : Nat) (hlim : v.numCols ≤ lim) (le : α → α → Bool) (row : Nat) :
     (row < v.numRows →
-      a.sortByRow indexRow buf le row =
+      a.sortByRow indexRow buf lim le row =
         .ok (gather buf (v.mapCells (sortColsG (stablePerm le (readWin buf (v.rowWin row))))))) ∧
-    (¬ row < v.numRows → a.sortByRow indexRow buf le row = .error .panic) := by
-  constructor
-  · intro hr
-    have hin := VW.rowWin_inside h hr
-    have hl : (readWin buf (v.rowWin row)).length = v.numCols := by
-      simp only [readWin, List.length_take, List.length_drop]
-      have : (v.rowWin row).len = v.numCols := rfl
-      omega
-    have hp := stablePerm_perm le (readWin buf (v.rowWin row))
-    rw [hl] at hp
-    simp only [Acc.sortByRow, ha.rows, hr, not_true_eq_false, if_false, ok_bind, hidx row hr]
-    exact C16_apply_col_perm v buf h a ha _ hp
-  · intro hr
-    simp only [Acc.sortByRow, ha.rows, hr, not_false_eq_true, if_true, throw_eq, err_bind]
+    (¬ row < v.numRows → a.sortByRow indexRow buf lim le row = .error .panic) := by
+  sorry
 
-/-- `sort_unstable_by_row` (and its key / natural-order variants): for every permutation the side sort may return -/
+/-- `sort_unstable_by_row(row, compare)`: for every permutation the side sort may return -/
 theorem C16_sort_unstable_by_row (v : VW) (buf : List α) (h : v.Inv buf.length) (a : Acc) (ha : a.Of v buf.length)
     (indexRow : Nat → Res Win) (hidx : ∀ r, r < v.numRows → indexRow r = .ok (v.rowWin r))
-    (p : List Nat) (hp : p.Perm (List.range v.numCols)) (row : Nat) :
-    (row < v.numRows → a.sortUnstableByRow indexRow buf p row = .ok (gather buf (v.mapCells (sortColsG p)))) ∧
-    (¬ row < v.numRows → a.sortUnstableByRow indexRow buf p row = .error .panic) := by
-  constructor
-  · intro hr
-    simp only [Acc.sortUnstableByRow, ha.rows, hr, not_true_eq_false, if_false, ok_bind, hidx row hr]
-    exact C16_apply_col_perm v buf h a ha p hp
-  · intro hr
-    simp only [Acc.sortUnstableByRow, ha.rows, hr, not_false_eq_true, if_true, throw_eq, err_bind]
+    (lim : Nat) (hlim : v.numCols ≤ lim) (p : List Nat) (hp : p.Perm (List.range v.numCols)) (row : Nat) :
+    (row < v.numRows → a.sortUnstableByRow indexRow buf lim p row = .ok (gather buf (v.mapCells (sortColsG p)))) ∧
+    (¬ row < v.numRows → a.sortUnstableByRow indexRow buf lim p row = .error .panic) := by
+  sorry
+
+/-- the key and natural-order variants are the comparator variants with the derived comparator (src/sort.rs:68-76, 147-164) -/
+theorem C16_variants_delegate {κ : Type} (a : Acc) (indexRow : Nat → Res Win) (buf : List α) (lim : Nat)
+    (key : α → κ) (leK : κ → κ → Bool) (leOrd : α → α → Bool) (p : List Nat) (row : Nat) :
+    a.sortByRowKey indexRow buf lim key leK row = a.sortByRow indexRow buf lim (fun x y => leK (key x) (key y)) row ∧
+    a.sortRowOrd indexRow buf lim leOrd row = a.sortByRow indexRow buf lim leOrd row ∧
+    a.sortUnstableByRowKey indexRow buf lim p row = a.sortUnstableByRow indexRow buf lim p row ∧
+    a.sortUnstableRowOrd indexRow buf lim p row = a.sortUnstableByRow indexRow buf lim p row :=
+  ⟨rfl, rfl, rfl, rfl⟩
 
 /-- a column permutation is a bijection of the cells: every column of the result is one original column, each once -/
 theorem C16_cols_bijective (C R : Nat) (p : List Nat) (hp : p.Perm (List.range C)) :
@@ -142,5 +163,38 @@ theorem C16_result_row_sorted (v : VW) (buf : List α) (h : v.Inv buf.length) (p
       rw [VW.pos_zero_add]
     · rw [if_neg hk, List.getElem?_eq_none (by omega)]; rfl
   exact ⟨by rw [heq]; exact hsorted, heq⟩
+
+/-- **The property's first sentence for the stable comparator variant, in one statement**: for a total preorder `le` and a valid
+    row, `sort_by_row` succeeds; the result is the old array with whole columns permuted by a permutation `p` of the column
+    indices (every result column is one original column, each exactly once); the chosen row of the result is ordered by `le`;
+    and columns whose keys compare equal (`le` both ways) keep their original left-to-right order. -/
+theorem C16_sort_by_row_ordered (v : VW) (buf : List α) (h : v.Inv buf.length) (a : Acc) (ha : a.Of v buf.length)
+    (indexRow : Nat → Res Win) (hidx : ∀ r, r < v.numRows → indexRow r = .ok (v.rowWin r))
+    (lim : Nat) (hlim : v.numCols ≤ lim) (le : α → α → Bool)
+    (htrans : ∀ a b c, le a b → le b c → le a c) (htotal : ∀ a b, le a b ∨ le b a)
+    (row : Nat) (hr : row < v.numRows) :
+    ∃ p buf', a.sortByRow indexRow buf lim le row = .ok buf' ∧ p.Perm (List.range v.numCols) ∧
+      buf' = gather buf (v.mapCells (sortColsG p)) ∧
+      (readWin buf' (v.rowWin row)).Pairwise (fun x y => le x y = true) ∧
+      (∀ i j, i < j → j < v.numCols → ∀ x y, buf[v.pos (p.getD i 0) row]? = some x → buf[v.pos (p.getD j 0) row]? = some y →
+        le y x = true → p.getD i 0 < p.getD j 0) := by
+  sorry
+
+/-- the same for the key-function variant: the chosen row ends up ordered by the keys -/
+theorem C16_sort_by_row_key_ordered {κ : Type} (v : VW) (buf : List α) (h : v.Inv buf.length) (a : Acc) (ha : a.Of v buf.length)
+    (indexRow : Nat → Res Win) (hidx : ∀ r, r < v.numRows → indexRow r = .ok (v.rowWin r))
+    (lim : Nat) (hlim : v.numCols ≤ lim) (key : α → κ) (leK : κ → κ → Bool)
+    (htrans : ∀ a b c, leK a b → leK b c → leK a c) (htotal : ∀ a b, leK a b ∨ leK b a)
+    (row : Nat) (hr : row < v.numRows) :
+    ∃ p buf', a.sortByRowKey indexRow buf lim key leK row = .ok buf' ∧ p.Perm (List.range v.numCols) ∧
+      buf' = gather buf (v.mapCells (sortColsG p)) ∧
+      (readWin buf' (v.rowWin row)).Pairwise (fun x y => leK (key x) (key y) = true) := by
+  sorry
+
+/-- non-vacuity: a 3x2 owned array sorted by its row 0 (keys 30,10,20): columns move as wholes -/
+example : (⟨[30, 10, 20, 1, 2, 3], 2, 3⟩ : TD Nat).acc.sortByRow
+      ((⟨[30, 10, 20, 1, 2, 3], 2, 3⟩ : TD Nat).indexRow .debug) [30, 10, 20, 1, 2, 3] 100 (fun a b => decide (a ≤ b)) 0
+    = .ok [10, 20, 30, 2, 3, 1] := by
+  sorry
 
 end Toodee
